@@ -15,7 +15,7 @@ RULE = ("Random programs (Hypothesis rule-based state machine, JSON-replayable) 
         "indexing/slicing, sum/cumsum/max/min/sort/transpose/clip/diagonal/trace/dot. After every step the result and every live object must satisfy: integer codes inside the format's range, "
         "n_int == n_word-n_frac-sign, upper/lower/precision == hi*2^-f, lo*2^-f, 2^-f (through scale and bias), dtype string == the spelling of (signed,n_word,n_frac[,complex]) in the configured notation, "
         "status record with its four keys. Second, non-stateful check: saturation of float inputs of any finite magnitude and python integers up to 2^1000 into n_frac>=0 formats stores hi iff input>upper and lo iff input<lower "
-        "(never the opposite bound). Non-trivial = object produced by an operation (not a constructor) whose operands were at/near a range end, or a saturation input beyond +-2^63; distinct = distinct programs / inputs.")
+        "(never the opposite bound). Third check (accumulator): an object that is its own config.op_out / op_out_like target, and the objects derived from it by like= / template= / indexing, are well-formed, usable in arithmetic, and refer to themselves rather than to their source. Non-trivial = object produced by an operation (not a constructor) whose operands were at/near a range end, or a saturation input beyond +-2^63; distinct = distinct programs / inputs.")
 ASSUMPTIONS = ['operands are kept in core-domain formats (objects with n_word>52 or complex values are checked but not re-inserted)',
                'steps whose documented result word is < 1 are rejected by the library (ValueError) and are skipped and counted by the generator']
 EXHAUSTIVE = False
